@@ -94,7 +94,7 @@ theorem requires_in_graph (c : Cmd) (m : ArgMap) (a : Arg) (ma : MatchedArg) (pr
     rw [List.mem_flatMap]
     refine ⟨e, List.mem_filter.2 ⟨hem, by rw [he2]; exact hex⟩, ?_⟩
     simp only [he1, hfa]
-    have hfuel : c.args.length * c.args.length + c.args.length + 2 = (c.args.length * c.args.length + c.args.length + 1) + 1 := rfl
+    have hfuel : requiresFuel c = ((c.args.map fun a => a.requires.length).sum + 1) + 1 := rfl
     rw [hfuel]
     apply unroll_direct c _ _ a hfa
     rw [List.mem_filterMap]
